@@ -12,7 +12,9 @@ theorem one_parser :
     Facts.envelopeParserCallers = ["client.go:accept", "json.go:ParseRequests", "server.go:read"] := by decide
 
 /-- single non-batch message bare, anything else an array -/
-theorem toJSON_single (n : Int) (b : Bool) : Funcs.toJSONSingle n b = (n == 1 && !b) := rfl
+theorem toJSON_single (n : Int) (b : Bool) : Funcs.toJSONSingle n b = (n == 1 && !b) := by
+  unfold Funcs.toJSONSingle
+  by_cases h : n = 1 <;> cases b <;> simp [h, bne]
 
 private theorem fb_iff (u : UInt8) (k : Nat) (hk : k < 256) : ((u.toNat : Int) = (k : Int)) ↔ u = k.toUInt8 := by
   rw [← UInt8.toNat_inj]; simp [Nat.mod_eq_of_lt hk]; omega
